@@ -26,6 +26,8 @@ Theorems (over Model/ListOffsets.lean and Model/Seek.lean):
                           concerns the connection, otherwise every partition of every answered topic is reported
     readOffsets_exact     ReadOffsets: both offsets iff both requests succeeded; no value leaks on error
     mapping_exact_listOffsets_step one merged entry updates its own partition's record only, in the field its timestamp selects
+    clientInit_keys / clientListOffsets_total   end to end: request → split → (any part outcomes, not all failed) → merge → fold never
+                          panics and returns a record set
     clientStep_other / clientApply_untouched / clientApply_total   the whole fold: partitions the response does not mention keep their
                           record, no record is lost, and no nil-map panic when every entry concerns a requested partition
 -/
@@ -632,6 +634,84 @@ theorem readPartitionsTopics_spec (connTopic : String) (args : List String) :
     have : connTopic.length ≠ 0 := by
       intro h0; exact h (String.length_eq_zero_iff.mp h0)
     simp [readPartitionsTopics, this]
+
+/-- the first loop of Client.ListOffsets creates a record for every requested (topic, partition) -/
+theorem clientInit_keys (topics : List (String × List (Int × Int))) (t : String) (rs : List (Int × Int)) (p ts : Int)
+    (ht : (t, rs) ∈ topics) (hp : (p, ts) ∈ rs) : ((clientInit topics).lookup (t, p)).isSome = true := by
+  have hmem : (t, (p, ts)) ∈ topics.flatMap (fun x => x.2.map fun r => (x.1, r)) := by
+    simp only [List.mem_flatMap, List.mem_map]
+    exact ⟨(t, rs), ht, (p, ts), hp, rfl⟩
+  have gen : ∀ (l : List (String × (Int × Int))) (acc : List ((String × Int) × PartitionOffsets)),
+      ((acc.lookup (t, p)).isSome = true ∨ (t, (p, ts)) ∈ l) →
+      ((l.foldl (fun m (x : String × (Int × Int)) =>
+          let cur := (m.lookup (x.1, x.2.1)).getD ⟨x.2.1, -1, -1, [], 0⟩
+          let cur := if x.2.2 == firstOffset then { cur with first := 0 } else if x.2.2 == lastOffset then { cur with last := 0 } else cur
+          KV.ListOffsets.ainsert m (x.1, x.2.1) cur) acc).lookup (t, p)).isSome = true := by
+    intro l
+    induction l with
+    | nil => intro acc h; rcases h with h | h; exact h; cases h
+    | cons x xs ih =>
+      intro acc h
+      simp only [List.foldl_cons]
+      apply ih
+      by_cases hx : (x.1, x.2.1) = (t, p)
+      · left
+        rw [ainsert_eq, ← hx, lookup_ainsert_self]; rfl
+      · rcases h with h | h
+        · left
+          rw [ainsert_eq, lookup_ainsert_other _ _ _ _ (fun h' => hx h'.symm)]; exact h
+        · rcases List.mem_cons.mp h with h | h
+          · exact absurd (by rw [← h]) hx
+          · exact Or.inr h
+  have := gen _ [] (Or.inr hmem)
+  simpa [clientInit] using this
+
+
+theorem expected_key (x : (String × ReqPart) × Sub) (h : x.2.WF x.1) :
+    ((expected x).1, (expected x).2.partition) = (x.1.1, x.1.2.partition) := by
+  obtain ⟨tp, s⟩ := x
+  cases s with
+  | failed e => rfl
+  | answered th a =>
+    have : a.partition = tp.2.partition := h
+    simp [expected, this]
+
+theorem flat_clientRequest_mem (iso : Int) (topics : List (String × List (Int × Int))) (tp : String × ReqPart)
+    (h : tp ∈ flat (clientRequest iso topics)) :
+    ∃ t rs p ts, (t, rs) ∈ topics ∧ (p, ts) ∈ rs ∧ tp = (t, ⟨p, -1, ts⟩) := by
+  simp only [flat, clientRequest] at h
+  rw [List.mem_flatMap] at h
+  obtain ⟨top, htop, hin⟩ := h
+  rw [List.mem_map] at htop
+  obtain ⟨⟨t, rs⟩, hmem, rfl⟩ := htop
+  simp only [List.mem_map] at hin
+  obtain ⟨rp, ⟨⟨p, ts⟩, hpts, rfl⟩, rfl⟩ := hin
+  exact ⟨t, rs, p, ts, hmem, hpts, rfl⟩
+
+/-- **Client.ListOffsets end to end (no panic, nothing foreign)**: for any user request and any outcomes of its
+parts that are not all failures (each answering about the partition it was asked about), the protocol request is
+split, merged, and folded into the per-partition records without hitting the nil-map case: a result is returned,
+and every record of the result belongs to a requested (topic, partition) or was there before. -/
+theorem clientListOffsets_total (iso : Int) (topics : List (String × List (Int × Int)))
+    (xs : List ((String × ReqPart) × Sub))
+    (hreq : xs.map (·.1) = flat (clientRequest iso topics)) (hwf : ∀ x ∈ xs, x.2.WF x.1)
+    (hsome : ∃ x ∈ xs, x.2.isFailed = false) :
+    ∃ resp recs, merge (split (clientRequest iso topics)) (xs.map fun x => x.2.result x.1.1) = .ok resp ∧
+      clientApply (clientInit topics) resp = some recs := by
+  obtain ⟨resp, hm, hperm⟩ := split_merge (clientRequest iso topics) xs hreq hwf hsome
+  refine ⟨resp, ?_⟩
+  have hkeys : ∀ e ∈ flatRes resp.topics, ((clientInit topics).lookup (e.1, e.2.partition)).isSome = true := by
+    intro e he
+    have he' := (hperm.mem_iff).mp he
+    obtain ⟨x, hx, rfl⟩ := List.mem_map.mp he'
+    rw [expected_key x (hwf x hx)]
+    have hx1 : x.1 ∈ flat (clientRequest iso topics) := by
+      rw [← hreq]; exact List.mem_map_of_mem hx
+    obtain ⟨t, rs, p, ts, htop, hpts, hx1⟩ := flat_clientRequest_mem iso topics x.1 hx1
+    rw [hx1]
+    exact clientInit_keys topics t rs p ts htop hpts
+  obtain ⟨recs, hrecs⟩ := clientApply_total (flatRes resp.topics) (clientInit topics) hkeys
+  exact ⟨recs, hm, hrecs⟩
 
 end mappings
 
